@@ -39,6 +39,57 @@ class Unknown(Exception):
     pass
 
 
+class OpVal:
+    """A member of FilterOp in the scenario interpreter."""
+    def __init__(self, name: str) -> None:
+        self.name = name
+
+    def __eq__(self, o: object) -> bool:
+        return isinstance(o, OpVal) and o.name == self.name
+
+    def __hash__(self) -> int:
+        return hash(("op", self.name))
+
+
+class FnVal:
+    """A function value (lambda or module-level function of the package) in the scenario interpreter."""
+    def __init__(self, node: ast.AST, fi: Any = None) -> None:
+        self.node, self.fi = node, fi
+
+
+def _apply(fv: "FnVal", args: List[Any], env: Dict[str, Any]) -> Any:
+    """Call a function value: a lambda is evaluated directly, a package function is interpreted over its CFG."""
+    if isinstance(fv.node, ast.Lambda):
+        params = [a.arg for a in fv.node.args.args]
+        sub = {k: v for k, v in env.items() if k.startswith("__")}
+        sub.update(dict(zip(params, args)))
+        sub["__types__"] = {p: ("float" if isinstance(v, float) else "int") for p, v in zip(params, args)}
+        return ev(fv.node.body, sub)
+    ctx, fi = env["__ctx__"], fv.fi
+    g = ctx.cfg(fi)
+    params = [p.name for p in fi.params if p.name != "self"]
+    loc: Dict[str, Any] = {k: v for k, v in env.items() if k.startswith("__")}
+    loc.update(dict(zip(params, args)))
+    loc["__types__"] = {p: ("float" if isinstance(v, float) else "int") for p, v in zip(params, args)}
+    cur: Optional[int] = g.entry
+    for _ in range(300):
+        if cur is None or cur == g.exit:
+            return None
+        n = g.nodes[cur]
+        if n.kind == "return":
+            return ev(n.ast.value, loc) if n.ast.value is not None else None  # type: ignore[union-attr]
+        if n.kind == "raise":
+            raise Unknown("raise in " + fi.name)
+        if n.kind == "branch" and n.ast is not None:
+            cur = edge_target(g, n, "true" if ev(n.ast, loc) else "false")
+            continue
+        if n.kind == "stmt" and isinstance(n.ast, ast.Assign) and len(n.ast.targets) == 1 and isinstance(n.ast.targets[0], ast.Name):
+            loc[n.ast.targets[0].id] = ev(n.ast.value, loc)
+        nxt = [d for d, l in g.succ[cur] if l in NORMAL]
+        cur = nxt[0] if nxt else None
+    raise Unknown("no result from " + fi.name)
+
+
 def ev(e: ast.AST, env: Dict[str, Any]) -> Any:
     """The checker's own evaluator for the comparison-only condition language of _file_may_match."""
     if isinstance(e, ast.Constant):
@@ -51,11 +102,23 @@ def ev(e: ast.AST, env: Dict[str, Any]) -> Any:
         loc = env.get("__locals__", {})
         if e.id in loc:
             return ev(loc[e.id], env)
+        ctx = env.get("__ctx__")
+        mod = env.get("__module__")
+        if ctx is not None and mod is not None:
+            if e.id in mod.consts and isinstance(mod.consts[e.id], (ast.Dict, ast.Lambda)):
+                c = mod.consts[e.id]
+                return FnVal(c) if isinstance(c, ast.Lambda) else ("moddict", c)
+            if e.id in mod.functions and not ctx.prog.is_known(mod.functions[e.id]):
+                return FnVal(mod.functions[e.id].node, mod.functions[e.id])
         raise Unknown(e.id)
+    if isinstance(e, ast.Lambda):
+        return FnVal(e)
     if isinstance(e, ast.Attribute):
         dn = dotted(e)
         if dn in env:
             return env[dn]
+        if isinstance(e.value, ast.Name) and e.value.id == "FilterOp":
+            return OpVal(e.attr)
         raise Unknown(dn or "?")
     if isinstance(e, ast.Compare):
         left = ev(e.left, env)
@@ -63,7 +126,9 @@ def ev(e: ast.AST, env: Dict[str, Any]) -> Any:
             right = ev(c, env)
             r = {ast.Lt: lambda a, b: a < b, ast.LtE: lambda a, b: a <= b, ast.Gt: lambda a, b: a > b,
                  ast.GtE: lambda a, b: a >= b, ast.Eq: lambda a, b: a == b, ast.NotEq: lambda a, b: a != b,
-                 ast.In: lambda a, b: a in b, ast.NotIn: lambda a, b: a not in b}.get(type(op))
+                 ast.In: lambda a, b: a in b, ast.NotIn: lambda a, b: a not in b,
+                 ast.Is: lambda a, b: (a is b) if (a is None or b is None) else (a == b),
+                 ast.IsNot: lambda a, b: (a is not b) if (a is None or b is None) else (a != b)}.get(type(op))
             if r is None:
                 raise Unknown(type(op).__name__)
             if not r(left, right):
@@ -77,6 +142,25 @@ def ev(e: ast.AST, env: Dict[str, Any]) -> Any:
         return not ev(e.operand, env)
     if isinstance(e, ast.Call):
         fn = dotted(e.func) or ""
+        # dispatch-table lookup: <module dict of function values keyed by FilterOp>.get(<op>) / [<op>]
+        if isinstance(e.func, ast.Attribute) and e.func.attr == "get" and e.args:
+            base = ev(e.func.value, env)
+            if isinstance(base, tuple) and base and base[0] == "moddict":
+                key = ev(e.args[0], env)
+                for k, v in zip(base[1].keys, base[1].values):
+                    if k is not None and ev(k, env) == key:
+                        return ev(v, env)
+                return ev(e.args[1], env) if len(e.args) > 1 else None
+        if isinstance(e.func, ast.Name) and (e.func.id in env or e.func.id in env.get("__locals__", {})) \
+                and isinstance(ev(e.func, env), FnVal):
+            return _apply(ev(e.func, env), [ev(a, env) for a in e.args], env)
+        if isinstance(e.func, ast.Name) and e.func.id not in ("any", "all", "isinstance", "bool", "len"):
+            try:
+                fv = ev(e.func, env)
+            except Unknown:
+                fv = None
+            if isinstance(fv, FnVal):
+                return _apply(fv, [ev(a, env) for a in e.args], env)
         if fn in ("any", "all") and e.args and isinstance(e.args[0], (ast.GeneratorExp, ast.ListComp)):
             gen = e.args[0]
             if len(gen.generators) != 1 or gen.generators[0].ifs or not isinstance(gen.generators[0].target, ast.Name):
@@ -96,6 +180,14 @@ def ev(e: ast.AST, env: Dict[str, Any]) -> Any:
         if fn == "len" and len(e.args) == 1:
             return len(ev(e.args[0], env))
         raise Unknown("call " + fn)
+    if isinstance(e, ast.Subscript):
+        base = ev(e.value, env)
+        if isinstance(base, tuple) and base and base[0] == "moddict":
+            key = ev(e.slice, env)
+            for k, v in zip(base[1].keys, base[1].values):
+                if k is not None and ev(k, env) == key:
+                    return ev(v, env)
+            raise Unknown("missing key")
     raise Unknown(type(e).__name__)
 
 
@@ -197,16 +289,31 @@ def r1r2(ctx: Ctx) -> None:
                 if isinstance(x, ast.Attribute) and x.attr == "op" and isinstance(y, ast.Attribute) and dotted(y.value) == "FilterOp":
                     opb[b.id] = (y.attr, isinstance(b.ast.ops[0], (ast.Eq, ast.Is)))
     ops_found = sorted({o for o, _p in opb.values()})
-    if len(ops_found) < 5:
-        raise AnalysisError(f"only {len(ops_found)} pruning branches found in _file_may_match")
     adom = ctx.dom(f, ALL)
-    start = min(opb, key=lambda i: (len([j for j in opb if j in adom[i]]), i))
+    table_mode = False
+    if len(ops_found) >= 5:
+        start = min(opb, key=lambda i: (len([j for j in opb if j in adom[i]]), i))
+    else:
+        # table-driven dispatch: a module-level dict keyed by FilterOp members, looked up with `<expr>.op`
+        tabs = [(nm, d) for nm, d in f.module.consts.items() if isinstance(d, ast.Dict) and d.keys
+                and all(isinstance(k, ast.Attribute) and dotted(k.value) == "FilterOp" for k in d.keys)
+                and any(isinstance(x, ast.Name) and x.id == nm for x in ast.walk(f.node))]
+        uses = [n for n in g.nodes if n.ast is not None and n.id in g.reachable() and n.kind in ("stmt", "branch")
+                and any(isinstance(x, ast.Attribute) and x.attr == "op" and dotted(x.value) == R["expr"] for x in ast.walk(n.ast))]
+        if not tabs or not uses:
+            raise AnalysisError(f"only {len(ops_found)} pruning branches found in _file_may_match")
+        ops_found = sorted({k.attr for _nm, d in tabs for k in d.keys})  # type: ignore[union-attr]
+        start = min(u.id for u in uses)
+        opb = {}
+        table_mode = True
 
     def run(op: str, env: Dict[str, Any]) -> str:
         """Interpret the CFG of one loop iteration from the operator dispatch, for operator `op` under the order-type
         environment `env`: 'skip' (return False) or 'keep' (anything else)."""
         cur: Optional[int] = start
         envl = dict(env)
+        envl[R["expr"] + ".op"] = OpVal(op)
+        envl["__ctx__"], envl["__module__"] = ctx, f.module
         for _step in range(500):
             if cur is None or cur == g.exit:
                 return "keep"
@@ -237,7 +344,7 @@ def r1r2(ctx: Ctx) -> None:
         raise Unknown("no decision within 500 steps")
 
     dom_vals = range(4)
-    anchor = {o: g.nodes[min(i for i, (oo, _p) in opb.items() if oo == o)] for o in ops_found}
+    anchor = {o: (g.nodes[min(i for i, (oo, _p) in opb.items() if oo == o)] if not table_mode else g.nodes[start]) for o in ops_found}
     # an expression whose operator has no dispatch branch is never a reason to skip
     try:
         stray = [(mn, mx, v) for mn in dom_vals for mx in range(mn, 4) for v in dom_vals
@@ -343,6 +450,10 @@ def r3(ctx: Ctx) -> None:
     cmpn = [n for n in g.nodes if n.ast is not None and n.kind in ("branch", "stmt", "return") and n.id in g.reachable()
             and any(isinstance(x, ast.Compare) and any(isinstance(o, (ast.Lt, ast.LtE, ast.Gt, ast.GtE)) for o in x.ops)
                     and ({R["min"], R["max"]} & set(names_in(x))) for x in ast.walk(n.ast))]
+    # ... or handed to a function that compares them (table-driven dispatch)
+    cmpn += [n for n in g.calls() if n.id in g.reachable() and isinstance(n.ast, ast.Call) and n.callee is not None
+             and n.callee.kind in ("param", "unknown", "func")
+             and {R["min"], R["max"]} <= {a.id for a in n.ast.args if isinstance(a, ast.Name)}]
     unguarded = [n for n in cmpn if ctx.eff.propagate(f, {"TypeError"}, n.frames, record=False)[0]]
     ctx.ob("C13.R3", f, "every comparison sits inside the TypeError guard", unguarded[0] if unguarded else (cmpn[0] if cmpn else None),
            bool(cmpn) and not unguarded, f"{len(cmpn)} ordering comparisons against the bounds, {len(unguarded)} outside a TypeError handler")
